@@ -1,6 +1,6 @@
 SPECIFICATION Spec
 CONSTANTS
-  Deviations <- AllDevs
+  Deviations <- RealDevs
   MaxNodes = 5
   Worlds <- QuickWorlds
   Rich = TRUE
